@@ -368,6 +368,24 @@ func runC07(c *core.Ctx) {
 		}
 		steps := c.Pick(30, 36)
 		for i := 0; i < steps; i++ {
+			if w.Hist%4 == 1 && i == 6+w.Hist%11 {
+				// ignore rules that appear AFTER paths they name were staged or committed: a staged difference is a staged
+				// difference, whatever the rules say now
+				for _, p := range []string{"build/o1", "out/o1", "a.log", "a.tmp", "dir/b.o", "notes.tmp"} {
+					w.Write(p, k.content())
+				}
+				k.goit("add", "build", "out", "a.log", "a.tmp", "dir", "notes.tmp")
+				if k.chance(50) {
+					k.Do("commit")
+					w.Write("a.log", k.content())
+					w.Write("build/o1", k.content())
+					k.goit("add", "a.log", "build")
+				}
+				w.Write(".goitignore", []byte("build/\nout/\n*.log\n*.tmp\n*.o\n"))
+				k.goit("status")
+				k.goit("commit", "-m", "staged before the rules were written")
+				k.goit("status")
+			}
 			k.Step()
 			if st := w.Steps[len(w.Steps)-1]; st.Cmd() == "commit" {
 				k.goit("status")
@@ -655,7 +673,14 @@ func writeIgnoreScenario(k *Walker) {
 		}
 		k.W.C.Count("scale.long-ignore-file")
 	}
-	w.Write(".goitignore", []byte(strings.Join(lines, "\n")+"\n"))
+	if r.IntN(8) == 0 {
+		// the ignore file is a symbolic link to a rules file kept elsewhere (a dotfiles directory)
+		w.Write("../home/dotfiles/goit-ignore-rules", []byte(strings.Join(lines, "\n")+"\n"))
+		w.Symlink(".goitignore", "../home/dotfiles/goit-ignore-rules")
+		k.W.C.Count("scale.ignore-file-is-a-symlink")
+	} else {
+		w.Write(".goitignore", []byte(strings.Join(lines, "\n")+"\n"))
+	}
 	// ignored things and near misses
 	w.Write(d+"/o1", k.content())
 	w.Write(d+"/deep/o2", k.content())
